@@ -42,10 +42,10 @@ LayoutClauses(e) ==
             [] b.kind = "D" -> b.left \in BranchGenes(s) /\ b.right \in BranchGenes(s)
             [] b.kind = "T" -> b.left \in BranchGenes(s) /\ b.fsp \in N /\ b.right \in AnchorGenes(Sp(e, b.fsp))
             [] OTHER -> TRUE
-  IN (IF \E u \in inner : ~Disjoint(Sp(e, LeftChild(st, u)).rect, Sp(e, RightChild(st, u)).rect)
+  IN (IF \E u \in inner : ~DisjointT(Sp(e, LeftChild(st, u)).rect, Sp(e, RightChild(st, u)).rect, e.tol)
       THEN {"ClauseSiblingBoxesDisjoint"} ELSE {})
-     \cup (IF \E u \in N : st[u] # 0 /\ ~Inside(Sp(e, u).rect, Sp(e, st[u]).rect) THEN {"ClauseBoxInsideParent"} ELSE {})
-     \cup (IF \E u, v \in N : u < v /\ ~Disjoint(Sp(e, u).trunk, Sp(e, v).trunk) THEN {"ClauseTrunksDisjoint"} ELSE {})
+     \cup (IF \E u \in N : st[u] # 0 /\ ~InsideT(Sp(e, u).rect, Sp(e, st[u]).rect, e.tol) THEN {"ClauseBoxInsideParent"} ELSE {})
+     \cup (IF \E u, v \in N : u < v /\ ~DisjointT(Sp(e, u).trunk, Sp(e, v).trunk, e.tol) THEN {"ClauseTrunksDisjoint"} ELSE {})
      \cup (IF \E u \in N : ~refsOK(u) THEN {"ClauseAnchorsExist"} ELSE {})
 
 TSpecies(s) == [sp |-> s.sp, rect |-> TransposeRect(s.rect), trunk |-> TransposeRect(s.trunk), fork |-> s.fork,
@@ -57,10 +57,31 @@ PSpecies(s) == [sp |-> s.sp, rect |-> s.rect, trunk |-> s.trunk, fork |-> s.fork
                 anchors |-> {<<s.anchors[i][1], s.anchors[i][2], s.anchors[i][3]>> : i \in DOMAIN s.anchors},
                 branches |-> {[gene |-> b.gene, kind |-> b.kind, left |-> b.left, right |-> b.right, rect |-> b.rect,
                                ap |-> b.ap, al |-> b.al, ar |-> b.ar, ac |-> b.ac] : b \in SeqToSet(s.branches)}]
+\* mirror relation up to a tolerance: p from the horizontal layout, q from the vertical one
+CloseSpecies(p, q, t) ==
+  /\ p.sp = q.sp
+  /\ CloseTuple(p.rect, TransposeRect(q.rect), t) /\ CloseTuple(p.trunk, TransposeRect(q.trunk), t)
+  /\ Abs(p.fork - q.fork) <= t
+  /\ Len(p.anchors) = Len(q.anchors)
+  /\ \A i \in DOMAIN p.anchors : \E j \in DOMAIN q.anchors :
+        /\ q.anchors[j][1] = p.anchors[i][1]
+        /\ Abs(q.anchors[j][3] - p.anchors[i][2]) <= t /\ Abs(q.anchors[j][2] - p.anchors[i][3]) <= t
+  /\ Len(p.branches) = Len(q.branches)
+  /\ \A i \in DOMAIN p.branches : \E j \in DOMAIN q.branches :
+        LET a == p.branches[i]
+            b == q.branches[j]
+        IN /\ a.gene = b.gene /\ a.kind = b.kind /\ a.left = b.left /\ a.right = b.right
+           /\ CloseTuple(a.rect, TransposeRect(b.rect), t)
+           /\ CloseTuple(a.ap, TransposePoint(b.ap), t) /\ CloseTuple(a.al, TransposePoint(b.al), t)
+           /\ CloseTuple(a.ar, TransposePoint(b.ar), t) /\ CloseTuple(a.ac, TransposePoint(b.ac), t)
 MirrorClauses(e) ==
   IF ~(e.h.finite /\ e.v.finite) THEN {"ClauseFinite"}
   ELSE IF Len(e.h.species) # Len(e.v.species) THEN {"ClauseMirror"}
-  ELSE IF \E x \in DOMAIN e.h.species : PSpecies(e.h.species[x]) # TSpecies(e.v.species[x]) THEN {"ClauseMirror"} ELSE {}
+  ELSE IF e.tol = 0
+       THEN (IF \E x \in DOMAIN e.h.species : PSpecies(e.h.species[x]) # TSpecies(e.v.species[x])
+             THEN {"ClauseMirror"} ELSE {})
+       ELSE (IF \E x \in DOMAIN e.h.species : ~CloseSpecies(e.h.species[x], e.v.species[x], e.tol)
+             THEN {"ClauseMirror"} ELSE {})
 AgainClauses(e) == IF e.a # e.b THEN {"ClauseDeterministic"} ELSE {}
 
 Clauses(e) == CASE e.op = "layout" -> LayoutClauses(e)
